@@ -146,6 +146,47 @@ func (r *NgReader) readBody(buffer []byte) error {
 	return nil
 }
 
+// readBodyBytes reads length bytes from the body of the current block. buffer is used if its capacity is sufficient, otherwise a new buffer with a capacity of at least length bytes is allocated. If capacity is bigger than length and reasonably small, the new buffer gets that capacity.
+// length is not trustworthy, as the block could be longer than the file. So at most ngMaxPrealloc bytes are allocated up front, and the buffer grows while more data arrives.
+func (r *NgReader) readBodyBytes(buffer []byte, length int, capacity int) ([]byte, error) {
+	if length < 0 || uint32(length) > r.bodyLength() {
+		return nil, errNgBlockTooShort
+	}
+	if buffer == nil || cap(buffer) < length {
+		size := length
+		if size > ngMaxPrealloc {
+			size = ngMaxPrealloc
+		} else if capacity > size && capacity <= ngMaxPrealloc {
+			size = capacity
+		}
+		buffer = make([]byte, size)
+	}
+	n := 0
+	for {
+		end := cap(buffer)
+		if end > length {
+			end = length
+		}
+		buffer = buffer[:end]
+		nn, err := r.readBytes(buffer[n:])
+		r.currentBlock.length -= uint32(nn)
+		if err != nil {
+			return buffer[:n+int(nn)], err
+		}
+		n = end
+		if n == length {
+			return buffer, nil
+		}
+		size := 2 * n
+		if size > length || size < n {
+			size = length
+		}
+		grown := make([]byte, size)
+		copy(grown, buffer)
+		buffer = grown
+	}
+}
+
 func (r *NgReader) discard(length int) error {
 	if length < 0 || uint32(length) > r.currentBlock.length {
 		return errNgBlockTooShort
@@ -650,6 +691,24 @@ FIND_PACKET:
 	return nil
 }
 
+// readPacketBody reads the packet data of the current packet block including the padding. See readBodyBytes for buffer and capacity.
+func (r *NgReader) readPacketBody(buffer []byte, capacity int) ([]byte, error) {
+	padding := (4 - r.ci.CaptureLength&3) & 3
+	if r.ci.CaptureLength < 0 || uint64(r.ci.CaptureLength)+uint64(padding) > uint64(r.bodyLength()) {
+		return nil, fmt.Errorf("Capture length %d exceeds block length", r.ci.CaptureLength)
+	}
+	data, err := r.readBodyBytes(buffer, r.ci.CaptureLength, capacity)
+	if err != nil {
+		return data, err
+	}
+	if padding > 0 {
+		if err = r.discard(padding); err != nil {
+			return data, err
+		}
+	}
+	return data, nil
+}
+
 func (r *NgReader) readPacketOptions() (NgPacketOptions, error) {
 	opts := NgPacketOptions{}
 
@@ -731,16 +790,8 @@ func (r *NgReader) ReadPacketDataWithOptions() (data []byte, ci gopacket.Capture
 		ci.AncillaryData = make([]interface{}, 1)
 		ci.AncillaryData[0] = r.ancil[0]
 	}
-	data = make([]byte, r.ci.CaptureLength)
-	if _, err = r.readBytes(data); err != nil {
+	if data, err = r.readPacketBody(nil, 0); err != nil {
 		return
-	}
-	r.currentBlock.length -= uint32(r.ci.CaptureLength)
-	padding := (4 - r.ci.CaptureLength&3) & 3
-	if padding > 0 {
-		if err = r.discard(int(padding)); err != nil {
-			return
-		}
 	}
 
 	if r.currentBlock.typ == ngBlockTypeEnhancedPacket {
@@ -777,23 +828,13 @@ func (r *NgReader) ZeroCopyReadPacketDataWithOptions() (data []byte, ci gopacket
 	if r.options.WantMixedLinkType {
 		ci.AncillaryData = r.ancil[:]
 	}
-	if cap(r.packetBuf) < ci.CaptureLength {
-		snaplen := int(r.ifaces[ci.InterfaceIndex].SnapLength)
-		if snaplen < ci.CaptureLength {
-			snaplen = ci.CaptureLength
-		}
-		r.packetBuf = make([]byte, snaplen)
+	// a new buffer is sized according to the snap length of the interface, so it doesn't need to grow with every bigger packet
+	data, err = r.readPacketBody(r.packetBuf, int(r.ifaces[ci.InterfaceIndex].SnapLength))
+	if cap(data) > 0 {
+		r.packetBuf = data
 	}
-	data = r.packetBuf[:ci.CaptureLength]
-	if _, err = r.readBytes(data); err != nil {
+	if err != nil {
 		return
-	}
-	r.currentBlock.length -= uint32(r.ci.CaptureLength)
-	padding := (4 - r.ci.CaptureLength&3) & 3
-	if padding > 0 {
-		if err = r.discard(int(padding)); err != nil {
-			return
-		}
 	}
 
 	if r.currentBlock.typ == ngBlockTypeEnhancedPacket {
